@@ -5,11 +5,17 @@
 EXTENDS SC62015Format
 PreBytes == {r[1] : r \in PreRows}
 Palette == {0, 255}
-VARIABLES pre, op, b2, fill
-vars == <<pre, op, b2, fill>>
+CONSTANT B2Set
+B2All == 0..255
+B2Quick == {0, 1, 3, 4, 5, 7, 8, 12, 15, 20, 36, 39, 52, 54, 68, 86, 112, 119, 128, 132, 135, 140, 148, 165, 192, 196, 198, 207, 228, 247, 255, 32, 33, 50, 191}
+VARIABLES pre, op, b2, fill, stage
+vars == <<pre, op, b2, fill, stage>>
 Bytes == (IF pre = -1 THEN <<>> ELSE <<pre>>) \o <<op, b2, fill, fill, fill, fill, fill>>
-Init == pre \in {-1} \cup PreBytes /\ op \in 0..255 /\ b2 \in 0..255 /\ fill \in Palette
-Next == UNCHANGED vars
+\* one initial state per opcode; the step fans out over prefix x second byte x fill so that TLC's workers share the space
+Init == op \in 0..255 /\ pre = -1 /\ b2 = 0 /\ fill = 0 /\ stage = 0
+PreChoice == {-1} \cup PreBytes
+Next == /\ stage = 0 /\ stage' = 1 /\ op' = op
+        /\ pre' \in PreChoice /\ b2' \in B2Set /\ fill' \in Palette
 Spec == Init /\ [][Next]_vars
 
 D == Decode(Bytes)
